@@ -143,6 +143,16 @@ def check(prog: Program, run: Run) -> None:
     run.rule("C17.R4", "every call-time read only guards a raise (or selects the errors= mode "
              "of bytes.decode): code outside the error path does not depend on the mode",
              floor=1)
+    run.rule("C17.R6", "no function that can report a problem through odxraise is memoised",
+             floor=1)
+    run.rule("C17.R7", "the non-strict continuation of an odxraise in a use-time method of a "
+             "database class does not modify the object", floor=20)
+    _check_memo_and_fallbacks(prog, run)
+    # the truncation guard is what callers probe with (next alternative, end-marker search):
+    # it has to raise unconditionally, a mode-dependent odxraise changes valid results
+    from . import c05
+    from .common import run_as
+    run_as(run, "C05.R2", "C17.R5", lambda r: c05._truncation(prog, r))
 
     try:
         extra = Program(prog.repo, extra_dirs=("examples",))
@@ -275,6 +285,126 @@ def check(prog: Program, run: Run) -> None:
 # exception classes whose only purpose is to steer dispatch: a handler somewhere in the package
 # catches exactly this class to try the next alternative.  Routing them through odxraise would
 # switch the dispatch off in non-strict mode and change the result of a *valid* operation.
+MEMO_DECORATORS = ("lru_cache", "cache", "cached_property")
+LOAD_PHASE = ("from_et", "_resolve_odxlinks", "_resolve_snrefs", "_finalize_init", "__post_init__",
+              "_build_odxlinks", "__init__")
+
+
+def _reaches_odxraise(prog: Program, cg, f: FuncInfo, seen=None, depth: int = 0) -> Optional[str]:
+    """Name of an odxraise / odxassert / odxrequire call reachable from f (class-hierarchy call
+    graph, depth-bounded), else None."""
+    seen = seen if seen is not None else set()
+    if f.key in seen or depth > 6:
+        return None
+    seen.add(f.key)
+    for x in walk_no_nested(f.node):
+        if isinstance(x, ast.Call) and call_name(x) in ("odxraise", "odxassert", "odxrequire"):
+            return f"{call_name(x)} in {f.qual}"
+    for site in cg.sites(f):
+        if site.fallback:
+            continue
+        for g in site.callees:
+            r = _reaches_odxraise(prog, cg, g, seen, depth + 1)
+            if r:
+                return r
+    return None
+
+
+def _check_memo_and_fallbacks(prog: Program, run: Run) -> None:
+    from ..callgraph import CallGraph
+    cg = CallGraph(prog)
+    # ---- R6: nothing that may report a problem is memoised
+    R = "C17.R6"
+    n = 0
+    for f in prog.iter_functions():
+        if not f.module.rel.startswith("odxtools/"):
+            continue
+        n += 1
+        memo = [d for d in f.decorators if d.split(".")[-1].split("(")[0] in MEMO_DECORATORS]
+        if not memo:
+            continue
+        # only the function's own body: a fall-back value computed right here is what gets
+        # cached. (Transitive reachability was tried and dropped: DiagLayer._prefix_tree reaches
+        # an odxraise four calls deep, but the same problem is reported again by the decoder
+        # itself, so strict mode still restores the error -- repro/c17_prefix_tree.py.)
+        via = next((f"{call_name(x)} in {f.qual}" for x in walk_no_nested(f.node)
+                    if isinstance(x, ast.Call) and call_name(x) in ("odxraise", "odxassert",
+                                                                    "odxrequire")), None)
+        if via:
+            run.violation(R, f.qual, "memoised-error-path",
+                          f"`@{memo[0]}` caches the result of {f.qual}, which reports problems "
+                          f"through {via}: the value returned by the non-strict fall-back is "
+                          "cached, so after one lenient call the error is never reported again "
+                          "for these arguments, not even in strict mode", f.loc)
+        else:
+            run.ok(R, f.qual, f"`@{memo[0]}`: no odxraise reachable from the memoised function",
+                   f.loc)
+    run.ok(R, "package", f"{n} functions scanned for memoisation decorators "
+           f"({', '.join(MEMO_DECORATORS)})", "odxtools/")
+    # ---- R7: the lenient continuation of an odxraise does not change the database objects
+    R = "C17.R7"
+    MUT = ("append", "extend", "update", "add", "setdefault", "insert", "pop", "remove", "clear")
+    parsed = {c.name for c in {id(c): c for c in prog.classes_by_mod.values()}.values()
+              if any("from_et" in m for m in c.methods)}
+
+    def is_db_class(ci) -> bool:
+        return any(b.name in parsed for b in prog.mro(ci))
+
+    def mutations(stmts):
+        out = []
+        for st in stmts:
+            for x in ast.walk(st):
+                if isinstance(x, (ast.Assign, ast.AugAssign, ast.AnnAssign)):
+                    tg = x.targets if isinstance(x, ast.Assign) else [x.target]
+                    for t in tg:
+                        b = t.value if isinstance(t, ast.Subscript) else t
+                        if isinstance(b, ast.Attribute) and isinstance(b.value, ast.Name) and \
+                                b.value.id == "self":
+                            out.append(x)
+                if isinstance(x, ast.Call) and isinstance(x.func, ast.Attribute) and \
+                        x.func.attr in MUT and isinstance(x.func.value, ast.Attribute) and \
+                        isinstance(x.func.value.value, ast.Name) and \
+                        x.func.value.value.id == "self":
+                    out.append(x)
+        return out
+    sites = 0
+    for f in prog.iter_functions():
+        if f.cls is None or not f.module.rel.startswith("odxtools/") or not is_db_class(f.cls):
+            continue
+        if any(f.name == l or f.name.startswith(l) for l in LOAD_PHASE):
+            continue
+
+        def scan(body):
+            nonlocal sites
+            for i, st in enumerate(body):
+                if isinstance(st, ast.Expr) and isinstance(st.value, ast.Call) and \
+                        call_name(st.value) == "odxraise":
+                    sites += 1
+                    ms = mutations(body[i + 1:])
+                    if ms:
+                        m = ms[0]
+                        run.violation(R, f.qual, "fallback-mutates-" + " ".join(
+                            ast.unparse(m).split())[:40],
+                                      f"`{' '.join(ast.unparse(m).split())[:80]}` in the "
+                                      "non-strict continuation of an odxraise changes the "
+                                      "database object: after one lenient call the condition "
+                                      "that raised is gone, so re-enabling strict mode does not "
+                                      "restore the error", f"{f.module.rel}:{m.lineno}",
+                                      stmt_key(st))
+                    else:
+                        run.ok(R, f.qual, "the lenient continuation leaves the object unchanged",
+                               f"{f.module.rel}:{st.lineno}")
+                for fld in ("body", "orelse", "finalbody"):
+                    sub = getattr(st, fld, None)
+                    if isinstance(sub, list) and sub and isinstance(sub[0], ast.stmt):
+                        scan(sub)
+                if isinstance(st, ast.Try):
+                    for h in st.handlers:
+                        scan(h.body)
+        scan(f.node.body)
+    run.info("odxraise_fallbacks_in_database_classes", sites)
+
+
 def _check_signals(prog: Program, run: Run) -> None:
     exc_classes = {c.name for c in prog.subclasses("OdxError")} if prog.has_cls("OdxError") \
         else set()
